@@ -37,6 +37,7 @@ struct KString : Kind {
   void assign(void* d, void* s) override { *(String*)d = *(String*)s; }
   void modify(void* h, int tid, int n, std::string& m) override {
     char c = (char)('A' + tid); String& s = *(String*)h;
+    if (((n % 16) + 16) % 16 == 15) { char to = (char)('P' + tid); s.replace('a', to); for (auto& ch : m) if (ch == 'a') ch = to; return; }   // replace(char, char): writes only into a payload of its own
     switch (((n % 7) + 7) % 7) {
       case 6: { std::string add = std::string("+") + c + "src"; String src(add.data(), add.size()); s.append(src); m += add; break; }   // append of another (counted) String: an empty target may take over the source's payload
       case 5: { static const char FOREIGN[] = "attached-foreign-text"; s.attach(FOREIGN, sizeof FOREIGN - 1); m = FOREIGN; break; }   // the handle is pointed at memory it does not own: its share of the old payload has to be given up
@@ -59,6 +60,12 @@ struct KVarString : Kind {
   void modify(void* h, int tid, int n, std::string& m) override {
     // one modification in six changes the type through another mutable accessor (the string payload has to be given up), the next
     // toString() changes it back to an (empty) string
+    if (((n % 14) + 14) % 14 >= 8) {
+      // a scalar of each kind is assigned over the string payload (the share has to be given up), then a new string
+      Variant& v = *(Variant*)h; char c = (char)('a' + tid);
+      switch (((n % 14) + 14) % 14) { case 8: v = true; break; case 9: v = 2.5; break; case 10: v = (int)n; break; case 11: v = (uint)n; break; case 12: v = (int64)((long long)n * 4294967296LL); break; default: v = (uint64)(unsigned long long)n; break; }
+      m += c; v = String(m.data(), m.size()); return;
+    }
     switch (((n % 6) + 6) % 6) { case 3: ((Variant*)h)->toList(); m.clear(); return; case 4: ((Variant*)h)->toMap(); m.clear(); return; case 5: ((Variant*)h)->toArray(); m.clear(); return; default: break; }
     char c = (char)('a' + tid); ((Variant*)h)->toString().append(c); m += c;
   }
